@@ -46,7 +46,7 @@ CHECKS.update({
  'C06': dict(
    technique='CBMC contracts on NumberDataType::writeRawValue (harness-enforced, whole-string frame) + round-trip lemma over the read/write specification functions; decode-then-encode round trip of the extracted DateTimeDataType::readSymbols / writeSymbols for every built-in date/time type; ValueListDataField::writeSymbols against a name/number lookup specification',
    level='proof',
-   text='writeRawValue proved to write exactly the specified bytes, OR-ing bit fields into an existing byte, leaving every other byte of the output unchanged; lemma: encode(decode(bytes)) reproduces the owned bits for every decodable pattern of every valid numeric type shape, null encodes to the canonical replacement pattern; parseInput (C07) gives the text leg for integers. Date/time types: for every byte pattern of BTI/HTI/VTI/BTM/HTM/VTM/MIN/TTM/TTH/TTQ/BDA/BDA:3/HDA/HDA:3/BDZ/DAY (DTM in the thorough tier) that decodes (completely non-null or completely null), encoding the decoded text succeeds, has the type length and reproduces the bytes on the bits the type owns; the null value encodes to the replacement pattern; the weekday byte is regenerated as the calendar weekday. Value lists: a name encodes to its value (names are looked up before numbers), a listed number to itself. KNX 16 bit float (thorough tier): every pattern except 7fff and f800 is a fixed point of decode-encode-decode.',
+   text='writeRawValue proved to write exactly the specified bytes, OR-ing bit fields into an existing byte, leaving every other byte of the output unchanged; lemma: encode(decode(bytes)) reproduces the owned bits for every decodable pattern of every valid numeric type shape, null encodes to the canonical replacement pattern; parseInput (C07) gives the text leg for integers. Date/time types: for every byte pattern of BTI/HTI/VTI/BTM/HTM/VTM/MIN/TTM/TTH/TTQ/BDA/BDA:3/HDA/HDA:3/BDZ/DAY (DTM in the thorough tier) that decodes (completely non-null or completely null), encoding the decoded text succeeds, has the type length and reproduces the bytes on the bits the type owns; the null value encodes to the replacement pattern; the weekday byte is regenerated as the calendar weekday. Value lists: a name encodes to its value (names are looked up before numbers), a listed number to itself. KNX 16 bit float (thorough tier): every pattern except 7fff and f800 is a fixed point of decode-encode-decode. Strings (StringDataType::readSymbols / writeSymbols, 4 bytes): the hex text a byte pattern decodes to re-encodes to the same bytes; a printable text padded with the replacement character round-trips; an arbitrary hex text of up to 8 characters is encoded group by group (missing groups: replacement) or rejected if a group is incomplete or no hex.',
    note=TB + 'Harness-enforced (B2) runs check pre/post but not a DFCC assigns clause; the frame is asserted explicitly over the whole output string. Not decided: float text leg (print/parse identity of libstdc++/libc), date/time/string types.',
    ref='DESIGN.md 5 (C06)'),
  'C10': dict(
